@@ -51,7 +51,8 @@ oracles are independent of the library: the harness computes digests, sd_hash, f
 signatures itself — 10 of 24 would have been missed by the pre-round checks of the property aimed at (most of those
 were reported by another property's check). Round 10: seven agents (an eighth failed twice on an output limit): free choice with triggers of a kind not yet in the list; process-global
 and thread-related state; valid but unusual use of the API; refactorings that move or reorder code; use of the
-dependencies' APIs; optional behaviour that is on by default or sniffed from the input. Every change was confirmed here
+dependencies' APIs; optional behaviour that is on by default or sniffed from the input. Round 11 (five agents, the last hour): performance work; the holder's selection walk through arrays of arrays and of
+objects; the deterministic-salt build; the JSON serialization with key binding; free choice. Every change was confirmed here
 (`tools/confirm_seed.sh` in a scratch worktree: demo passes without the change, 146/146 suite tests
 pass with it, demo fails with it) and run against all 16 quick checks in scratch copies
 (`tools/seedmatrix.sh`; `/repo` itself is never modified). Kept under `/verif/seeded/<name>/`
@@ -73,6 +74,12 @@ description or from the matrix, and the check was widened; `meta.json` says whic
 for r in sorted(rows):
     sec+=f"\n**Round {r}**\n\n| seed | aimed at | change (agent's summary, shortened) | quick checks reporting VIOLATION | caught by own check |\n|---|---|---|---|---|\n"+'\n'.join(rows[r])+'\n'
 sec+='''
+One proposed change was confirmed by its author's demonstration but **not kept**, because it does not break the
+property as this document reads it: R11C seed_c (mock build: a hidden array element draws its salt before its hidden
+descendants instead of after). The queue is still consumed front to back, one entry per disclosure, and every run is
+byte-identical; only *which* disclosure receives the k-th salt changes, which C16 does not fix — the very reason why
+C16 compares the consumed salts as a multiset (10.5). No check reports it, as intended.
+
 What the misses taught (each entry is the `after_strengthening` note of the seed's `meta.json`):
 
 '''
